@@ -30,8 +30,15 @@ def _analyse(prop: str, root: str, overlay: dict[str, str]):
     repo = Repo(root, overlay)
     mod = importlib.import_module(f'rules.{prop.lower()}')
     ctx = report.Ctx(prop, repo, tier='selftest')
-    mod.run(ctx)
     known = report.load_known()
+    try:
+        mod.run(ctx)
+    except AnalysisError:
+        # same policy as ./check: a violation found before a later rule gave up is still a violation
+        new, hit = report.split_failures(prop, ctx.obs, known)
+        if not new:
+            raise
+        return ctx, new, hit
     new, hit = report.split_failures(prop, ctx.obs, known)
     return ctx, new, hit
 
